@@ -41,6 +41,9 @@ type invC15 struct {
 	DashDash bool      `json:"dashdash"`
 	// FlagPos[i] = number of file operands before flag i (only without --)
 	FlagPos []int `json:"flagpos"`
+	// Out is what standard output is connected to: "" a pipe, "file" a
+	// regular file, "devnull" the character device /dev/null (not a terminal)
+	Out string `json:"out,omitempty"`
 }
 
 // caseC15 is a directory and a history of one or two invocations on it.
@@ -317,6 +320,7 @@ func drawC15(t *rapid.T) caseC15 {
 		for range inv.Flags {
 			inv.FlagPos = append(inv.FlagPos, rapid.IntRange(0, len(inv.Files)).Draw(t, "flagpos"))
 		}
+		inv.Out = rapid.SampledFrom([]string{"", "", "", "file", "devnull"}).Draw(t, "stdoutkind")
 		c.Invs = append(c.Invs, inv)
 		// names the next invocation may refer to
 		for _, n := range inv.Files {
@@ -332,10 +336,38 @@ func drawC15(t *rapid.T) caseC15 {
 }
 
 func runTool(dir string, name string, args []string, stdin []byte) (stdout, stderr []byte, code int, err error) {
+	stdout, stderr, code, _, err = runToolOut(dir, name, args, stdin, "")
+	return
+}
+
+// runToolOut runs the tool with standard output connected to a pipe (""), a
+// regular file outside dir ("file") or /dev/null ("devnull"); known tells
+// whether stdout holds what was written.
+func runToolOut(dir string, name string, args []string, stdin []byte, out string) (stdout, stderr []byte, code int, known bool, err error) {
 	cmd := exec.Command(name, args...)
 	cmd.Dir = dir
 	var so, se bytes.Buffer
 	cmd.Stdout, cmd.Stderr = &so, &se
+	known = true
+	var outFile *os.File
+	switch out {
+	case "file":
+		outFile, err = os.CreateTemp(filepath.Dir(dir), "stdout-")
+		if err != nil {
+			return nil, nil, 0, false, err
+		}
+		defer os.Remove(outFile.Name())
+		defer outFile.Close()
+		cmd.Stdout = outFile
+	case "devnull":
+		outFile, err = os.OpenFile(os.DevNull, os.O_WRONLY, 0)
+		if err != nil {
+			return nil, nil, 0, false, err
+		}
+		defer outFile.Close()
+		cmd.Stdout = outFile
+		known = false
+	}
 	cmd.Stdin = bytes.NewReader(stdin)
 	err = cmd.Run()
 	code = 0
@@ -343,7 +375,14 @@ func runTool(dir string, name string, args []string, stdin []byte) (stdout, stde
 		code = ee.ExitCode()
 		err = nil
 	}
-	return so.Bytes(), se.Bytes(), code, err
+	if out == "file" && err == nil {
+		b, rerr := os.ReadFile(outFile.Name())
+		if rerr != nil {
+			return nil, nil, 0, false, rerr
+		}
+		return b, se.Bytes(), code, true, nil
+	}
+	return so.Bytes(), se.Bytes(), code, known, err
 }
 
 // decodeStreams decodes a file in the given format (several concatenated
@@ -594,12 +633,15 @@ func checkC15(c caseC15, rec *ev.Rec) *ev.Failure {
 			before[k] = v
 		}
 		exp := stepModel(model, inv)
-		stdout, stderr, code, err := runTool(dir, gxz, args, nil)
+		stdout, stderr, code, stdoutKnown, err := runToolOut(dir, gxz, args, nil, inv.Out)
 		if err != nil {
 			rec.Incomplete("cannot run gxz: " + err.Error())
 			return nil
 		}
-		desc := fmt.Sprintf("step %d: gxz %q in a directory with %s", si, args, describeDir(c.Files))
+		if inv.Out != "" {
+			rec.Class("stdout=" + inv.Out)
+		}
+		desc := fmt.Sprintf("step %d: gxz %q (stdout: %s) in a directory with %s", si, args, map[string]string{"": "pipe", "file": "regular file", "devnull": "/dev/null"}[inv.Out], describeDir(c.Files))
 		sig := []string{"step", fmt.Sprint(si)}
 		if bytes.Contains(stderr, []byte("panic:")) || bytes.Contains(stderr, []byte("goroutine ")) {
 			return ev.Fail(desc+": gxz panicked: "+string(stderr[:min(len(stderr), 600)]), append(sig, "what", "panic")...)
@@ -609,7 +651,9 @@ func checkC15(c caseC15, rec *ev.Rec) *ev.Failure {
 				append(sig, "what", "exit_status", "flags", flagSet(inv))...)
 		}
 		// stdout
-		if !o.stdout {
+		if !stdoutKnown {
+			// written to /dev/null: exit status and directory are judged
+		} else if !o.stdout {
 			if len(stdout) != 0 {
 				return ev.Fail(desc+": wrote to standard output without -c", append(sig, "what", "stdout_unwanted")...)
 			}
